@@ -725,6 +725,55 @@ class FileEdges(object):
         return repr(sorted((k, str(v)) for k, v in res.items())), vs, 1
 
 
+class ImportGroups(object):
+    name = 'L-imports-in-several-groups'
+    describe = ('module A hangs a node below each of three nodes of module B and imports them in every division into one to three '
+                'FROM B groups (every ordered set partition), the groups placed before, after and around the FROM SNMPv2-SMI group; '
+                'both back ends: every OID is the declared one however the IMPORTS section is cut up')
+
+    @staticmethod
+    def ordered_partitions(items):
+        if not items:
+            yield []
+            return
+        first, rest = items[0], items[1:]
+        for part in ImportGroups.ordered_partitions(rest):
+            for i in range(len(part)):
+                yield part[:i] + [[first] + part[i]] + part[i + 1:]
+            for i in range(len(part) + 1):
+                yield part[:i] + [[first]] + part[i:]
+
+    def blocks(self, tier):
+        return [{'backend': b} for b in ('json', 'pysnmp')]
+
+    def cases(self, block, tier):
+        for groups in self.ordered_partitions(['bOne', 'bTwo', 'bThree']):
+            for smi_at in range(len(groups) + 1):
+                yield {'backend': block['backend'], 'groups': groups, 'smi_at': smi_at}
+
+    def run_case(self, case):
+        clauses = ['%s FROM B-MIB' % ', '.join(g) for g in case['groups']]
+        clauses.insert(case['smi_at'], 'enterprises FROM SNMPv2-SMI')
+        a = ('A-MIB DEFINITIONS ::= BEGIN\nIMPORTS %s;\naRoot OBJECT IDENTIFIER ::= { enterprises 11 }\n'
+             'aOne OBJECT IDENTIFIER ::= { bOne 1 }\naTwo OBJECT IDENTIFIER ::= { bTwo 2 }\naThree OBJECT IDENTIFIER ::= { bThree 3 }\nEND\n'
+             % '\n    '.join(clauses))
+        b = ('B-MIB DEFINITIONS ::= BEGIN\nIMPORTS enterprises FROM SNMPv2-SMI;\nbOne OBJECT IDENTIFIER ::= { enterprises 21 }\n'
+             'bTwo OBJECT IDENTIFIER ::= { bOne 2 }\nbThree OBJECT IDENTIFIER ::= { bTwo 3 }\nEND\n')
+        want = {'A-MIB': set(['1.3.6.1.4.1.11', '1.3.6.1.4.1.21.1', '1.3.6.1.4.1.21.2.2', '1.3.6.1.4.1.21.2.3.3']),
+                'B-MIB': set(['1.3.6.1.4.1.21', '1.3.6.1.4.1.21.2', '1.3.6.1.4.1.21.2.3'])}
+        parser = env.shared_parser('smiV2')
+        parser.reset()
+        res, written = env.compile_set({'A-MIB': a, 'B-MIB': b}, ['A-MIB'], codegen=case['backend'], dialect=parser)
+        sig = 'C01|L|groups=%d|%s' % (len(case['groups']), case['backend'])
+        vs = []
+        for n in ('A-MIB', 'B-MIB'):
+            if res.get(n) != 'compiled':
+                vs.append(('%s|valid-module-%s' % (sig, res.get(n)), '%s: %r\n%s' % (n, getattr(res.get(n), 'error', None), a)))
+            elif set(getattr(res[n], 'oids', ()) or ()) != want[n]:
+                vs.append(('%s|status.oids-differ' % sig, '%s: %r, declared %r\n%s' % (n, sorted(res[n].oids), sorted(want[n]), a)))
+        return repr(sorted((k, str(v)) for k, v in res.items())), vs, 1
+
+
 def _parents_from_the_old_base_modules():
     from mc.checks import C16
 
@@ -736,4 +785,4 @@ def _parents_from_the_old_base_modules():
     return OldBaseParents()
 
 
-FAMILIES = [_parents_from_the_old_base_modules(), Shapes(), Spellings(), Kinds(), SameNames(), ArcZero(), TableOrders(), ArcValues(), NoDepsChains(), AfterFailures(), FileEdges()]
+FAMILIES = [_parents_from_the_old_base_modules(), Shapes(), Spellings(), Kinds(), SameNames(), ArcZero(), TableOrders(), ArcValues(), NoDepsChains(), AfterFailures(), FileEdges(), ImportGroups()]
